@@ -60,6 +60,7 @@ def shards(tier, seed):
     out.append(("pyopt_isprime_adv", dict(kind="isprime_adv", nrand=300 if q else 5000, _pyopt=True)))
     out.append(("pyopt_factor_struct", dict(kind="factor_struct", count=60 if q else 600, _pyopt=True)))
     out.append(("pyopt_nextprime_gap", dict(kind="nextprime_gap", ngaps=8, _pyopt=True)))
+    out.append(("concurrent", dict(kind="concurrent", runs=120 if q else 1500)))
     out.append(("next_prime_seams", dict(kind="seams", gaps=1 if q else 4, cmax=600 if q else 8192)))
     return out
 
@@ -298,6 +299,16 @@ def run(ctx, name, kind, **kw):
             if n < 1 << 40:
                 chk_next(ctx, n - 1, nt.next_prime(n - 1), "next_prime.code_constant", key=None)
                 chk_factor(ctx, n, "factorization.code_constant", key=None)
+    elif kind == "concurrent":
+        from vf import sched as S
+        jobs = []
+        for n in (1229, 1231, 1231 * 1237, 2 ** 31 - 1, 3215031751, 56052361, 2 ** 61 - 1, 1000003 * 1000033, 97, 1):
+            jobs.append(("is_prime", NT.is_prime, (n,), nt.is_prime(n)))
+            jobs.append(("next_prime", NT.next_prime, (n,), nt.next_prime(n)))
+        for n in (2 * 1231 * 1237, 1231 ** 2, 2 ** 10 * 3 ** 5 * 1249, 1000003 * 17, 360360):
+            jobs.append(("factorization", NT.factorization, (n,), nt.factor(n)))
+        jobs += [("gcd", NT.gcd, (12 * 1231, 18 * 1231, 30 * 1231), 6 * 1231), ("lcm", NT.lcm, ([4, 6, 10],), 60)]
+        S.concurrent_purity(ctx, S.codes_of(NT, {"is_prime", "next_prime", "factorization", "gcd", "lcm", "gcd2", "lcm2"}), jobs, rng, kw["runs"])
     elif kind == "seams":
         # block / window sizes written into next_prime's own code are candidate seams: for each integer literal c found there, take
         # prime gaps LONGER than c (found with the reference at a size where such gaps are common) and ask for the next prime from
